@@ -86,7 +86,7 @@ void fv_fatal(const char *msg) {
     const char *cls = "other";
     if (strstr(msg, "stack underflow")) cls = "underflow";
     else if (strstr(msg, "push-back overflow")) cls = "pushback";
-    else if (strstr(msg, "uses REJECT") || strstr(msg, "uses yyreject")) cls = "reject_overflow";
+    else if (strstr(msg, "uses REJECT") || strstr(msg, "uses yyreject") || strstr(msg, "because scanner uses reject")) cls = "reject_overflow";
     else if (strstr(msg, "out of dynamic memory") || strstr(msg, "out of memory")) cls = "nomem";
     else if (strstr(msg, "input in flex scanner failed")) cls = "readerr";
     else if (strstr(msg, "token too large")) cls = "yylmax";
@@ -226,7 +226,18 @@ void fv_free(void *p) {
 }
 
 /* ---- scanner-facing part (uses the generated scanner's own API) ------------------------ */
-#ifdef FV_BACKEND_R
+#if defined(FV_BACKEND_C99)
+#define FV_DEF_ONLY yyscan_t yyscanner
+#define FV_DEF_LAST , void *fv_ys_
+#define FV_GUTS yyscan_t yyscanner = (yyscan_t) fv_ys_; (void) yyscanner;
+#define FV_GUTS0
+static yyscan_t fv_scanner; static int fv_scanner_alive = 1;
+#define FV_TOP_A1 fv_scanner
+#define FV_TOP_AL , fv_scanner
+#define FV_SET_IN(f) yyset_in((f), yyscanner)
+#define FV_CURBUF() yy_current_buffer(yyscanner)
+#define FV_SIZE_T size_t
+#elif defined(FV_BACKEND_R)
 #define FV_DEF_ONLY yyscan_t yyscanner
 #define FV_DEF_LAST , void *yyscanner
 #define FV_GUTS struct yyguts_t *yyg = (struct yyguts_t *) yyscanner; (void) yyg;
@@ -239,6 +250,11 @@ static yyscan_t fv_scanner; static int fv_scanner_alive = 1;
 #define FV_GUTS
 #define FV_TOP_A1
 #define FV_TOP_AL
+#endif
+#ifndef FV_SET_IN
+#define FV_SET_IN(f) yyin = (f)
+#define FV_CURBUF() yy_current_buffer()
+#define FV_SIZE_T yy_size_t
 #endif
 
 static yybuffer fv_bufs[FV_MAXBUFS]; static int fv_nbufs = 0;
@@ -283,15 +299,50 @@ static void fv_rewind(long id) {
 #endif
 }
 
-#ifdef FV_LEDGER
+#if defined(FV_LEDGER) && defined(FV_BACKEND_C99)
+void *yyalloc(size_t n, yyscan_t yyscanner) { (void) yyscanner; return fv_alloc(n); }
+void *yyrealloc(void *p, size_t n, yyscan_t yyscanner) { (void) yyscanner; return fv_realloc(p, n); }
+void yyfree(void *p, yyscan_t yyscanner) { (void) yyscanner; fv_free(p); }
+#elif defined(FV_LEDGER)
 void *yyalloc(yy_size_t n FV_DEF_LAST) { return fv_alloc((size_t) n); }
 void *yyrealloc(void *p, yy_size_t n FV_DEF_LAST) { return fv_realloc(p, (size_t) n); }
 void yyfree(void *p FV_DEF_LAST) { fv_free(p); }
 #endif
 
+#ifdef FV_BACKEND_C99
+/* the c99 skeleton's ECHO is a function writing to yyout: the default rule is observed through a
+ * stream whose write callback logs the match like any other action (it takes no script) */
+static ssize_t fv_echo_write(void *cookie, const char *buf, size_t n) {
+    yyscan_t yyscanner = fv_scanner;
+    (void) cookie;
+    fv_default_rule = 1;
+    fv_cur_prefix = fv_more_set ? fv_last_leng : 0; fv_more_set = 0; fv_last_leng = (long) n;
+    fv_log_match(YY_END_OF_BUFFER - 1, buf, (long) n, FV_LINENO_EXPR, yystart(yyscanner),
+                 fv_bol_needed ? (int) yyatbol(yyscanner) : -1);
+    return (ssize_t) n;
+}
+static FILE *fv_echo_stream(void) {
+    static FILE *f;
+    if (!f) {
+        cookie_io_functions_t io = { NULL, fv_echo_write, NULL, NULL };
+        f = fopencookie(NULL, "w", io);
+        if (f) setvbuf(f, NULL, _IONBF, 0);
+    }
+    return f;
+}
+/* the c99 skeleton's replaceable routines (%option noyyread noyypanic) */
+#ifndef FV_STDIO
+static int yyread(char *buf, size_t max_size, yyscan_t yyscanner) { return fv_read((void *) yyget_in(yyscanner), buf, max_size); }
+#endif
+static void yypanic(const char *msg, yyscan_t yyscanner) { (void) yyscanner; fv_fatal(msg); }
+#endif
+
 #ifndef FV_NO_YYWRAP_DEF
+#ifndef FV_GUTS0
+#define FV_GUTS0 FV_GUTS
+#endif
 int yywrap(FV_DEF_ONLY) {
-    FV_GUTS
+    FV_GUTS0
     int s = fv_wrap_next();
     fv_log_int("wrap", s);
     if (s == -2) {         /* end of an included buffer: pop it and go on, if there is one below */
@@ -300,7 +351,7 @@ int yywrap(FV_DEF_ONLY) {
     }
     if (s < 0) return 1;
     fv_rewind(s);
-    yyin = fv_file_of(s);
+    FV_SET_IN(fv_file_of(s));
     return 0;
 }
 #endif
@@ -315,7 +366,7 @@ static yybuffer fv_buf(long i) { return (i >= 0 && i < fv_nbufs) ? fv_bufs[i] : 
 static void fv_buffer_op(int op, long a, long b FV_DEF_LAST) {
     FV_GUTS
     switch (op) {
-    case FV_OP_GRAB: fv_reg(yy_current_buffer()); break;
+    case FV_OP_GRAB: fv_reg(FV_CURBUF()); break;
     case FV_OP_SCANBYTES: fv_reg(yy_scan_bytes((const char *) fv_src[a], (int) fv_srclen[a] FV_AL)); break;
     case FV_OP_SCANSTRING: fv_reg(yy_scan_string((const char *) fv_src[a] FV_AL)); break;
     case FV_OP_SCANBUFFER: {
@@ -323,7 +374,7 @@ static void fv_buffer_op(int op, long a, long b FV_DEF_LAST) {
         char *m = (char *) malloc((size_t) fv_srclen[a] + 2);
         memcpy(m, fv_src[a], (size_t) fv_srclen[a]); m[fv_srclen[a]] = 0; m[fv_srclen[a] + 1] = 0;
         if (fv_nbufs < FV_MAXBUFS) fv_scanbuf_mem[fv_nbufs] = m;
-        fv_reg(yy_scan_buffer(m, (yy_size_t) (fv_srclen[a] + b) FV_AL));
+        fv_reg(yy_scan_buffer(m, (FV_SIZE_T) (fv_srclen[a] + b) FV_AL));
         break; }
     case FV_OP_CREATE: fv_rewind(a); fv_reg(yy_create_buffer(fv_file_of(a), (int) b FV_AL)); break;
     case FV_OP_SWITCH: yy_switch_to_buffer(fv_buf(a) FV_AL); break;
@@ -333,10 +384,10 @@ static void fv_buffer_op(int op, long a, long b FV_DEF_LAST) {
         if (fv_depth > 0) { yypop_buffer_state(FV_A1); fv_depth--; fv_cont = 1; }
         break;
     case FV_OP_FLUSH: yy_flush_buffer(fv_buf(a) FV_AL); break;
-    case FV_OP_FLUSHCUR: yy_flush_buffer(yy_current_buffer() FV_AL); break;
+    case FV_OP_FLUSHCUR: yy_flush_buffer(FV_CURBUF() FV_AL); break;
     case FV_OP_DELETE: yy_delete_buffer(fv_buf(a) FV_AL); break;
     case FV_OP_RESTART: fv_rewind(a); yyrestart(fv_file_of(a) FV_AL); break;
-    case FV_OP_NEWYYIN: fv_rewind(a); yyin = fv_file_of(a); break;
+    case FV_OP_NEWYYIN: fv_rewind(a); FV_SET_IN(fv_file_of(a)); break;
 #ifdef FV_TABLES
     case FV_OP_TLOAD: {
         FILE *tf = (a >= 0 && a < 16 && fv_tfile[a]) ? fopen(fv_tfile[a], "rb") : NULL;
@@ -349,7 +400,7 @@ static void fv_buffer_op(int op, long a, long b FV_DEF_LAST) {
     case FV_OP_TDESTROY: fv_log_int("tdestroy", yytables_destroy(FV_A1)); break;
 #endif
     case FV_OP_SETLINENO:
-#ifdef FV_BACKEND_R
+#if defined(FV_BACKEND_R) || defined(FV_BACKEND_C99)
         yyset_lineno((int) a, yyscanner);
 #else
         yylineno = (int) a;
@@ -366,37 +417,41 @@ static void fv_stats(void) {
 
 int main(int argc, char **argv) {
     int i;
-#ifdef FV_BACKEND_R
+#if defined(FV_BACKEND_C99)
+    yyscan_t yyscanner;
+#define FV_NEW_SCANNER() yyscanner = fv_scanner; yyset_out(fv_echo_stream(), yyscanner)
+#elif defined(FV_BACKEND_R)
     yyscan_t yyscanner;
     struct yyguts_t *yyg;
+#define FV_NEW_SCANNER() yyscanner = fv_scanner; yyg = (struct yyguts_t *) yyscanner
 #endif
     if (argc < 2) { fprintf(stderr, "usage: scanner case\n"); return 4; }
     fv_load(argv[1]);
-#ifdef FV_BACKEND_R
+#ifdef FV_NEW_SCANNER
     if (yylex_init(&fv_scanner) != 0) { printf("initfail %d\n", errno); fv_stats(); return 0; }
-    yyscanner = fv_scanner; yyg = (struct yyguts_t *) yyscanner;
+    FV_NEW_SCANNER();
 #endif
-    if (fv_src[0]) yyin = fv_file_of(0);
+    if (fv_src[0]) FV_SET_IN(fv_file_of(0));
     fv_in_run = 1;
     if (setjmp(fv_jmp) == 0) {
         for (i = 0; i < fv_main_script.n; i++) {
             fv_op_t o = fv_main_script.ops[i];
-#ifdef FV_BACKEND_R
+#ifdef FV_NEW_SCANNER
             if (!fv_scanner_alive) {
                 if (yylex_init(&fv_scanner) != 0) { printf("initfail %d\n", errno); fv_stats(); return 0; }
-                yyscanner = fv_scanner; yyg = (struct yyguts_t *) yyscanner; fv_scanner_alive = 1;
+                FV_NEW_SCANNER(); fv_scanner_alive = 1;
             }
 #endif
             switch (o.op) {
             case FV_OP_LEX: if (fv_eof_seen && o.a == 0) break;   /* lex:1 = call again even after end of input */
                 { int r = yylex(FV_TOP_A1); fv_event(); printf("ret %d\n", r); fv_eof_seen = (r == 0); } break;
             case FV_OP_DESTROY: { int r = yylex_destroy(FV_TOP_A1); printf("destroy %d\n", r);
-#ifdef FV_BACKEND_R
+#ifdef FV_NEW_SCANNER
                 fv_scanner_alive = 0;     /* a new scanner object is made when the script goes on */
 #endif
                 } break;
             case FV_OP_INPUT: { int c_ = yyinput(FV_TOP_A1); fv_log_int("in", c_); } break;
-            case FV_OP_UNPUT: yyunput((int) o.a); break;
+            case FV_OP_UNPUT: FV_UNPUT((int) o.a); break;
             FV_COMMON_OPS(o.a, o.b)
             default: fv_buffer_op(o.op, o.a, o.b FV_TOP_AL); fv_eof_seen = 0; break;
             }
